@@ -4,10 +4,10 @@ Real code: api.transfer_model twice on a scratch folder with cache=True: the fir
 (generate, simplify, save_model), the second goes through load_model.  Names, order, Python types,
 outputs, delay states and the alias relation are compared concretely; z3 proves the four Functions
 of the CachedModel equal to those of the fresh Model for ALL inputs and every parameter-dependent
-attribute equal for ALL parameter values.  codegen=True (thorough): names / metadata / attributes
-only - numeric agreement of the compiled C behind ca.external is outside the claim (parameter-
-dependent attributes of a code-generated model are calls into that C code; they are compared
-numerically at three parameter points as a fallback, not by the solver).
+attribute equal for ALL parameter values.  codegen=True: names / metadata / attributes / alias relation
+concretely - agreement of the compiled C behind ca.external cannot be decided by the solver (parameter-
+dependent attributes of a code-generated model are calls into that C code); attributes and functions
+are compared numerically at a fixed point set (incl. NaN, +-inf, +-1e300) as a fallback.
 
 Besides seven hand-written models the family contains three GENERATED classes (see the generator
 functions below), each aimed at one region of save_model / load_model:
@@ -22,7 +22,18 @@ functions below), each aimed at one region of save_model / load_model:
   variable_metadata_function decides whether to rebuild itself as A*p+b;
 * falsy: String parameters/constants whose value/start/fixed are empty, unset, "0", ... and
   Real/Integer/Boolean variables of every category whose value/min/max/start/nominal/fixed are
-  0, 0.0, -0.0, false (values that a truthiness test confuses with "not given").
+  0, 0.0, -0.0, false (values that a truthiness test confuses with "not given");
+* alias: an algebraic variable aliased, with either sign and in several spellings, to a partner of every
+  category alias detection can make canonical (state, DERIVATIVE of a state, algebraic, input,
+  parameter, constant, delay state, vector elements), plus a second alias, with merged (fmin/fmax)
+  parameter-dependent bounds; allow_derivative_aliases on/off; the alias relation is compared through
+  all of its queries;
+* arrpos: unexpanded array variables before/after scalars with parameter-dependent attributes in every
+  category (row layout of the metadata function; known finding ROW_CLASS);
+* option SEQUENCES: the cache of a folder is written under option set A and the folder is then asked
+  for B (one option toggled, documented or not): what comes back must equal a fresh compile under B.
+codegen=True runs for a few models in the quick tier too (the C compile costs ~4 s per model): there,
+attributes and the four functions are compared numerically at finite AND non-finite points.
 """
 import itertools
 import os
@@ -43,6 +54,7 @@ from vk.smt.sx2z3 import sx2z3
 
 PROP = "C19"
 ATTRS = ("value", "min", "max", "start", "fixed", "nominal")
+ROW_CLASS = "cached-attr:unexpanded-array-at-or-before-variable"
 
 MODELS = {
  "param-attrs": """model M
@@ -328,10 +340,10 @@ def alias_models(tier):
   Real x(start = 1, min = -hi, max = hi);
   Real xv[2](each start = 2);
   Real g(max = 8);
-  Real gv[2](each min = -1);
   Real a(min = 0, max = 10, nominal = 2);
   Real b(min = lo, max = hi, start = p);
   Real w;
+  Real gv[2](each min = -1);
 equation
   der(x) = -k * x + u + g;
   der(xv[1]) = -xv[1] + w;
@@ -348,6 +360,28 @@ end M;
     return out
 
 
+ARRPOS_ATTR = {"plain": "each min = -1", "each": "each max = p2, each min = -1", "perelem": "max = {1, 2} * p1", "perelem-num": "max = {7, 9}, min = -p2"}
+
+
+def arrpos_models(tier):
+    """{id: text}: in every category that carries metadata, an UNEXPANDED array variable next to a scalar whose
+    attributes depend on the parameters - array declared before / after the scalar, array attributes
+    numeric, uniform parameter-dependent ('each'), or different per element.  (The metadata function has
+    one row per scalar ELEMENT; the variables of a category are a list of symbols.)"""
+    out = {}
+    for cat, (aid, aattr), order in itertools.product(("state", "alg", "input", "param", "const"), ARRPOS_ATTR.items(), ("array-first", "scalar-first")):
+        prefix = {"state": "", "alg": "", "input": "input ", "param": "parameter ", "const": "constant "}[cat]
+        sval, vval = (" = 1.5", " = {1, 2}") if cat in ("param", "const") else ("", "")
+        decls = [f"  {prefix}Real v[2]({aattr}){vval};", f"  {prefix}Real s(max = p1 + p2, min = -p1, nominal = p2){sval};"]
+        if order == "scalar-first":
+            decls.reverse()
+        eqs = {"state": ["  der(s) = -s + x;", "  der(v) = -v;"], "alg": ["  s = 2 * x;", "  v[1] = x + 1;", "  v[2] = 3 * x + s;"]}.get(cat, [])
+        out[f"arrpos[{cat},{aid},{order}]"] = ("model M\n  parameter Real p1 = 2;\n  parameter Real p2 = 3;\n  Real x(start = 1, max = p1);\n"
+                                              + "\n".join(decls) + "\n  Real y(min = p1 - p2);\nequation\n  der(x) = -x + s * v[1] + v[2];\n  y = x * p1;\n"
+                                              + "\n".join(eqs) + ("\n" if eqs else "") + "end M;\n")
+    return out
+
+
 # ---- option sequences on one model folder -------------------------------------------------------
 SEQ_MODELS = {
  "seq-chain": """function f
@@ -361,7 +395,7 @@ model M
   parameter Real q;
   parameter Real r = 2 * k;
   constant Real c = 3;
-  constant Real c2 = c + 1;
+  constant Real c2 = 4;
   input Real u;
   output Real y;
   Real a;
@@ -387,7 +421,7 @@ end M;
   parameter Real p2 = 3 * p1;
   parameter Real p3;
   constant Real c1 = 1.5;
-  constant Real c2 = 2 * c1;
+  constant Real c2 = 3;
   input Real u(fixed = true);
   Real x(start = p1, max = p2 * p3);
   Real e;
@@ -400,7 +434,7 @@ equation
   e = c1;
   h = e;
   m = -h;
-  z[1] = x;
+  z[1] = 2 * x + u;
   z[2] = 2 * z[1] + m;
   z[3] = z[2] - z[1] * p3;
   o = z[3];
@@ -464,7 +498,29 @@ def generated_items(tier):
     for mid, text in falsy_models(tier).items():
         for on, o in [O_PLAIN, O_INLINE, O_PVALS] + ([O_ALIASES, O_EXPAND] if thorough else []):
             items.append((mid, text, on, o, False))
+    for mid, text in alias_models(tier).items():
+        for on, o in alias_optsets(mid, tier):
+            items.append((mid, text, on, o, False))
+    for mid, text in arrpos_models(tier).items():
+        for on, o in [O_PLAIN] + ([O_EXPAND, O_PVALS] if thorough else []):
+            items.append((mid, text, on, o, False))
     return items
+
+
+def alias_optsets(mid, tier):
+    """Option sets for one alias model.  Vector-element partners only with expand_vectors (without it the
+    element equation involves the whole vector symbol, which is another property's subject); the option
+    allow_derivative_aliases=False is crossed in wherever a derivative is the partner."""
+    kid = mid[len("alias["):].split(",")[0]
+    thorough = tier == "thorough"
+    if kid.startswith("vec-"):
+        return [O_EXPAND] + ([O_EXPAND_NODER] if kid == "vec-der" or thorough else [])
+    sets = [O_ALIASES, O_EXPAND]
+    if kid == "der" or thorough:
+        sets += [O_NODER, O_EXPAND_NODER]
+    if thorough:
+        sets += [O_INLINE, O_ITER]
+    return sets
 
 
 def attr_term(val, psyms, pnames, div, numel):
@@ -484,19 +540,67 @@ def attr_term(val, psyms, pnames, div, numel):
     return t
 
 
+NAN, INF = float("nan"), float("inf")
+
+
+def special_points(n):
+    """Numeric points for an n-vector: three finite ones, zero, and the non-finite / extreme values at which
+    compiled C may legitimately be asked to agree with CasADi's virtual machine: all NaN (pymoca's default
+    for a parameter without value), NaN in one position at a time (first 6), +inf, -inf, +-1e300, mixed."""
+    pts = [[0.7 + 0.9 * j + 0.31 * i for i in range(n)] for j in range(3)]
+    if n == 0:
+        return pts[:1]
+    fin = pts[1]
+    pts += [[0.0] * n, [NAN] * n, [INF] * n, [-INF] * n, [1e300] * n, [-1e300] * n,
+            [(-1.0) ** i * 7.5 for i in range(n)], [INF if i % 2 else -INF for i in range(n)]]
+    for k in range(min(n, 6)):
+        pts.append([NAN if i == k else fin[i] for i in range(n)])
+        pts.append([fin[i] if i == k else NAN for i in range(n)])
+    return pts
+
+
 def numeric_attr_mismatch(a, b, pf, pc, numel):
     """None, or (point, fresh values, cached values) where the two attribute values differ numerically."""
     npar = int(sum(s.numel() for s in pf))
-    for j in range(3):
-        pt = [0.7 + 0.9 * j + 0.31 * i for i in range(npar)]
+    fs = [ca.Function("a", [ca.veccat(*ps)], [ca.MX(val) if isinstance(val, ca.MX) else ca.MX(ca.DM(val))]) for val, ps in ((a, pf), (b, pc))]
+    for pt in special_points(npar):
         vals = []
-        for val, ps in ((a, pf), (b, pc)):
-            v = ca.Function("a", [ca.veccat(*ps)], [ca.MX(val) if isinstance(val, ca.MX) else ca.MX(ca.DM(val))])(ca.DM(pt))
+        for f in fs:
+            v = f(ca.DM(pt))
             v = [float(x) for x in np.array(ca.densify(ca.DM(v))).flatten(order="F")]
             vals.append(v * numel if len(v) == 1 and numel > 1 else v)
         if len(vals[0]) != len(vals[1]) or any(not equiv.close(x, y) for x, y in zip(*vals)):
             return pt, vals[0], vals[1]
     return None
+
+
+def numeric_function_mismatch(fa, fb):
+    """Codegen fallback (outside the solver claim): call the fresh Function and the compiled one at the
+    special points.  Returns (n points, None) or (n, (point, output index, fresh, cached))."""
+    if (fa.n_in(), fa.n_out()) != (fb.n_in(), fb.n_out()) or any(fa.size_in(i) != fb.size_in(i) for i in range(fa.n_in())):
+        return 0, ("signature", -1, [fa.size_in(i) for i in range(fa.n_in())], [fb.size_in(i) for i in range(fb.n_in())])
+    sizes = [fa.size_in(i) for i in range(fa.n_in())]
+    total = sum(r * c for r, c in sizes)
+    pts = special_points(total)
+    # NaN / inf in one input group at a time
+    fin = pts[1] if total else []
+    off = 0
+    for r, c in sizes:
+        for bad in (NAN, INF):
+            pts.append([bad if off <= i < off + r * c else fin[i] for i in range(total)])
+        off += r * c
+    for pt in pts:
+        args, off = [], 0
+        for r, c in sizes:
+            args.append(ca.DM(pt[off:off + r * c]).reshape((r, c)) if r * c else ca.DM.zeros(r, c))
+            off += r * c
+        oa, ob = fa.call(args), fb.call(args)
+        for o, (x, y) in enumerate(zip(oa, ob)):
+            xv = [float(t) for t in np.array(ca.densify(ca.DM(x))).flatten(order="F")]
+            yv = [float(t) for t in np.array(ca.densify(ca.DM(y))).flatten(order="F")]
+            if len(xv) != len(yv) or any(not equiv.close(u, v) for u, v in zip(xv, yv)):
+                return len(pts), (pt, o, xv, yv)
+    return len(pts), None
 
 
 def compare(col, case, text, fresh, cached, codegen):
@@ -531,22 +635,56 @@ def compare(col, case, text, fresh, cached, codegen):
     if ra != rb or any(fresh.alias_relation.canonical_signed(v.symbol.name()) != cached.alias_relation.canonical_signed(v.symbol.name())
                        for v in fresh.states + fresh.alg_states):
         col.violation(f"{case}:alias_relation", f"alias relation differs: {ra} vs {rb}", {"model_text": text})
+    else:
+        # the whole observable relation: canonical set, and aliases() / canonical_signed() of EVERY name the
+        # two models know (variables of all six categories incl. derivatives, every recorded alias), both signs
+        names = set()
+        for m in (fresh, cached):
+            for cat in cats:
+                for v in getattr(m, cat):
+                    names.add(v.symbol.name())
+                    names.update(x.lstrip("-") for x in v.aliases)
+            for c, al in m.alias_relation:
+                names.add(c.lstrip("-"))
+                names.update(x.lstrip("-") for x in al)
+        fa, fb = fresh.alias_relation, cached.alias_relation
+        bad = []
+        if set(fa.canonical_variables) != set(fb.canonical_variables):
+            bad.append(f"canonical variables {sorted(fa.canonical_variables)} vs {sorted(fb.canonical_variables)}")
+        for nm in sorted(names):
+            for n in (nm, "-" + nm):
+                col.bump("alias_queries_compared")
+                if set(fa.aliases(n)) != set(fb.aliases(n)):
+                    bad.append(f"aliases({n!r}) {sorted(fa.aliases(n))} vs {sorted(fb.aliases(n))}")
+                if tuple(fa.canonical_signed(n)) != tuple(fb.canonical_signed(n)):
+                    bad.append(f"canonical_signed({n!r}) {fa.canonical_signed(n)} vs {fb.canonical_signed(n)}")
+        if bad:
+            col.violation(f"{case}:alias_relation:queries", "alias relation differs: " + "; ".join(bad[:6]), {"model_text": text})
+    col.bump("alias_groups", len(ra))
+    col.bump("alias_groups_with_derivative_canonical", sum(1 for c, _ in ra if c.startswith("der(")))
     # attributes
     div = ops.Divisors()
     pf, pc = fresh._symbols(fresh.parameters), cached._symbols(cached.parameters)
     pnames = [nm for s in pf for nm in modelio.sym_elem_names(s)]
     for cat in ["states", "alg_states", "inputs", "parameters", "constants"]:
-        for vf, vc in zip(getattr(fresh, cat), getattr(cached, cat)):
+        array_before = False
+        for idx, (vf, vc) in enumerate(zip(getattr(fresh, cat), getattr(cached, cat))):
+            array_before = any(w.symbol.numel() > 1 for w in getattr(fresh, cat)[:idx])
             for attr in ATTRS:
                 a, b = getattr(vf, attr), getattr(vc, attr)
                 n = vf.symbol.numel()
+                # stable class id (known finding) for value mismatches of a variable that comes after an unexpanded
+                # array variable of its category, or is one with an element-wise different attribute: the rows of
+                # the metadata function are per element, load_model indexes them per variable
+                elementwise = n > 1 and isinstance(a, ca.MX) and a.numel() > 1
+                vcase = ROW_CLASS if (array_before or elementwise) and isinstance(b, ca.MX) else None
                 if codegen and (isinstance(a, ca.MX) or isinstance(b, ca.MX)):
                     # the cached attribute is a call into compiled C (ca.external): nothing to encode.
                     # Fallback outside the solver claim: compare numerically at three parameter points.
                     bad = numeric_attr_mismatch(a, b, pf, pc, n)
                     col.bump("codegen_attributes_compared_numerically")
                     if bad:
-                        col.violation(f"{case}:{vf.symbol.name()}.{attr}:numeric", f"attribute differs at parameters {bad[0]}: fresh {bad[1]} cached {bad[2]}", {"model_text": text})
+                        col.violation(vcase or f"{case}:{vf.symbol.name()}.{attr}:numeric", f"attribute differs at parameters {bad[0]}: fresh {bad[1]} cached {bad[2]}", {"model_text": text})
                     continue
                 ta, tb = attr_term(a, pf, pnames, div, n), attr_term(b, pc, pnames, div, n)
                 if not isinstance(a, ca.MX) and not isinstance(b, ca.MX):
@@ -575,12 +713,19 @@ def compare(col, case, text, fresh, cached, codegen):
                         pt = equiv.point_from_model(m, [x, y])
                         xv, yv = equiv.z3eval(x, _nanpt(pt)), equiv.z3eval(y, _nanpt(pt))
                         if not equiv.close(xv, yv):
-                            col.violation(f"{case}:{vf.symbol.name()}.{attr}[{k}]", f"attribute differs at {pt}: fresh {xv} cached {yv}", {"model_text": text})
+                            col.violation(vcase or f"{case}:{vf.symbol.name()}.{attr}[{k}]", f"{case}: attribute {vf.symbol.name()}.{attr}[{k}] differs at {pt}: fresh {xv} cached {yv}", {"model_text": text})
+                            col.bump("row_class_violations", int(bool(vcase)))
                         else:
                             col.note_inconclusive(f"{case}:{vf.symbol.name()}.{attr}[{k}] sat did not replay")
                     elif r == "unknown":
                         col.note_inconclusive(f"{case}:{vf.symbol.name()}.{attr}[{k}] unknown")
     if codegen:
+        # compiled C behind ca.external: nothing to encode; numeric fallback at finite AND non-finite points
+        for fname in ("dae_residual", "initial_residual", "variable_metadata", "delay_arguments"):
+            n, bad = numeric_function_mismatch(getattr(fresh, fname + "_function"), getattr(cached, fname + "_function"))
+            col.bump("codegen_function_points", n)
+            if bad:
+                col.violation(f"{case}:{fname}:numeric", f"{fname} output {bad[1]} differs at {bad[0]}: fresh {bad[2]} compiled {bad[3]}", {"model_text": text})
         return
     names = modelio.model_in_names(fresh)
     for fname, nm in [("dae_residual", names), ("initial_residual", names), ("variable_metadata", [names[6]]), ("delay_arguments", names)]:
@@ -674,9 +819,64 @@ def check(col, mid, text, oname, opts, codegen=False):
         shutil.rmtree(d, ignore_errors=True)
 
 
+def check_sequence(col, mid, text, a, b):
+    """One model folder, a history of requests: the cache is written under option set A, then the SAME folder
+    is asked for option set B twice.  Whatever the second and third call return when it is a CachedModel
+    must equal a fresh compile under B (done in a second, clean folder); the third call must be served."""
+    (an, ao), (bn, bo) = a, b
+    case = f"seq:{mid}|{an}->{bn}"
+    private_parse_cache()
+    root = tempfile.mkdtemp(prefix="verif_c19_", dir=os.environ.get("VERIF_C19_SCRATCH"))
+    try:
+        d, ref = os.path.join(root, "model"), os.path.join(root, "reference")
+        for x in (d, ref):
+            os.mkdir(x)
+            with open(os.path.join(x, "M.mo"), "w") as f:
+                f.write(text)
+        oa, ob = dict(ao, cache=True), dict(bo, cache=True)
+        try:
+            reference = api.transfer_model(ref, "M", dict(ob))
+            first = api.transfer_model(d, "M", dict(oa))
+        except Exception as e:
+            col.harness_error(f"{case}: compiling raised {type(e).__name__}: {str(e)[-300:]}")
+            return
+        if isinstance(reference, api.CachedModel) or isinstance(first, api.CachedModel):
+            col.harness_error(f"{case}: a first transfer_model on a clean folder returned a cached model")
+            return
+        got = []
+        for k in (2, 3):
+            try:
+                got.append(api.transfer_model(d, "M", dict(ob)))
+            except Exception as e:
+                col.violation(f"{case}:call{k}:raises:{type(e).__name__}", f"request for B on a folder cached under A raises {type(e).__name__}: {str(e)[-100:]}",
+                              {"model_text": text, "options_a": oa, "options_b": ob})
+                return
+        if not isinstance(got[1], api.CachedModel):
+            col.violation(f"{case}:call3:not-served", "third transfer_model did not use the cache written by the second", {"model_text": text, "options_a": oa, "options_b": ob})
+        for k, m in zip((2, 3), got):
+            col.bump("sequence_calls")
+            if isinstance(m, api.CachedModel):
+                col.bump("sequence_calls_served_from_cache")
+                compare(col, f"{case}:call{k}", text, reference, m, False)
+        col.bump("programs")
+        col.bump("option_sequences")
+    finally:
+        shutil.rmtree(root, ignore_errors=True)
+
+
 def work(item):
-    mid, text, oname, opts, codegen = item
     col = Collector()
+    if item[0] == "SEQ":
+        _, mid, text, a, b = item
+        try:
+            check_sequence(col, mid, text, a, b)
+            col.sample({"model": mid, "options_a": a[1], "options_b": b[1]}, 1)
+        except EncodingGap as g:
+            col.append("encoding_gaps", f"seq:{mid}|{a[0]}->{b[0]}: {g}")
+        except Exception:
+            col.harness_error(f"seq:{mid}|{a[0]}->{b[0]}: " + traceback.format_exc()[-1500:])
+        return col
+    mid, text, oname, opts, codegen = item
     try:
         check(col, mid, text, oname, opts, codegen)
         col.sample({"model": mid, "options": opts, "codegen": codegen}, 2)
@@ -694,13 +894,24 @@ def main():
     rep = Report(PROP, args.tier, "translation_validation", args.seed)
     items = [(mid, text, on, o, False) for mid, text in MODELS.items() for on, o in OPTSETS]
     items += generated_items(args.tier)
-    n_gen = {k: len(f(args.tier)) for k, f in (("delay-pop", delay_pop_models), ("attr", attr_models), ("falsy", falsy_models))}
+    seqs = [("SEQ",) + it for it in seq_items(args.tier)]
+    items += seqs
+    n_gen = {k: len(f(args.tier)) for k, f in (("delay-pop", delay_pop_models), ("attr", attr_models), ("falsy", falsy_models), ("alias", alias_models), ("arrpos", arrpos_models))}
+    # code-generated shared libraries (about 4 s of C compilation per model): a few in the quick tier
+    am = alias_models("quick")
+    cg = [("param-attrs", MODELS["param-attrs"], "plain", {}), ("aliases", MODELS["aliases"]) + O_ALIASES,
+          ("alias[alg,eq,pos]", am["alias[alg,eq,pos]"]) + O_ALIASES, ("alias[state,neg,neg]", am["alias[state,neg,neg]"]) + O_ALIASES,
+          ("alias[der,eq,neg]", am["alias[der,eq,neg]"]) + O_ALIASES]
     if args.tier == "thorough":
-        items += [(mid, MODELS[mid], "plain", {}, True) for mid in ("param-attrs", "aliases", "strings")]
+        cg += [(mid, MODELS[mid], "plain", {}) for mid in ("aliases", "strings")]
         gen = dict(delay_pop_models("quick"), **attr_models("quick"), **falsy_models("quick"))
-        items += [(mid, gen[mid], "plain", {}, True) for mid in
-                  ("delay-pop[c=1,p=1,uf=0,fwd]", "delay-pop[c=2,p=2,uf=1,rev]", "attr[prod@state.max]", "attr[quot@param.value]",
-                   "attr[sum@input.min]", "falsy-str[nofixed,nostart]", "falsy-str[fixed,emptystart]", "falsy-num[zero]")]
+        cg += [(mid, gen[mid], "plain", {}) for mid in
+               ("delay-pop[c=1,p=1,uf=0,fwd]", "delay-pop[c=2,p=2,uf=1,rev]", "attr[prod@state.max]", "attr[quot@param.value]",
+                "attr[sum@input.min]", "attr[max@state.max]", "attr[abs@alg.start]", "falsy-str[nofixed,nostart]", "falsy-str[fixed,emptystart]", "falsy-num[zero]")]
+        cg += [(mid, text) + o for mid, text in am.items() for o in alias_optsets(mid, "quick")[:1] if (mid, o[0]) not in {(c[0], c[2]) for c in cg}]
+        cg += [(mid, text, "base+iter", dict(SEQ_BASE, iterative_simplification=True)) for mid, text in SEQ_MODELS.items()]
+    n_cg = len(cg)
+    items = [c + (True,) for c in cg] + items           # longest first
     scratch = tempfile.mkdtemp(prefix="verif_c19_run_")
     os.environ["VERIF_C19_SCRATCH"] = scratch
     try:
@@ -725,11 +936,25 @@ def main():
         f"{n_gen['falsy']} generated falsy-value models = 9 String models (value abc/empty/unset/'0'/'false'/' ' for parameter and constant "
         "x fixed unset/true/false x start unset/''/'s') + 4 numeric models (0, 0.0, -0.0, 1 and false/true in value/min/max/start/"
         "nominal/fixed of Real/Integer/Boolean parameters, constants, states, algebraic variables, inputs) x 3 option sets (thorough 5); "
-        "all inputs/parameters unbounded reals; codegen (thorough only, 3 hand-written + 8 generated models): names / types / plain attribute "
-        "values concretely, parameter-dependent attributes numerically at 3 parameter points (compiled C cannot be encoded), functions not compared"
+        f"{n_gen['alias']} generated alias models = an algebraic variable aliased to a {'/'.join(ALIAS_KINDS)} partner x "
+        f"{len(ALIAS_FORMS) if args.tier == 'thorough' else len(QUICK_ALIAS_FORMS)} spellings/signs of the alias equation ({', '.join(ALIAS_FORMS if args.tier == 'thorough' else QUICK_ALIAS_FORMS)}) "
+        "x second alias b = +a / -a, numeric bounds on one alias and parameter-dependent ones on the other, x option sets detect_aliases and "
+        "expand_vectors+detect_aliases (vector-element partners: expand only), allow_derivative_aliases=False crossed in for derivative partners "
+        "(thorough: for all, + inline, + iterative_simplification); the alias relation is compared through canonical_variables, aliases() and "
+        "canonical_signed() of every variable / derivative / alias name in both signs; "
+        f"{n_gen['arrpos']} generated array-position models = 5 categories x array attributes {'/'.join(ARRPOS_ATTR)} x array declared before/after a "
+        "scalar with parameter-dependent attributes, unexpanded (thorough: + expand, + parameter values); "
+        f"{len(seqs)} option SEQUENCES on one model folder ({len(SEQ_MODELS)} models): cache written under option set A, then the same folder asked twice "
+        f"for option set B, A and B differing in one of {len(SEQ_TOGGLES)} options (every simplification option, generator options, check_balanced/"
+        "verbose/mtime_check, the undocumented iterative_simplification, a stray key) in both directions (quick: all for one model, 6 for the other; "
+        "thorough: also all compatible pairs of toggles); every CachedModel returned is compared with a fresh compile under B in a clean folder; "
+        f"all inputs/parameters unbounded reals; codegen ({n_cg} models; quick: 5, thorough: + hand-written, generated delay/attr/falsy models, every "
+        "alias model and the sequence models with iterative_simplification): names / types / plain attribute values / alias relation concretely, "
+        "parameter-dependent attributes and the four compiled functions NUMERICALLY (compiled C cannot be encoded) at 3 finite points, 0, all-NaN, "
+        "single-NaN, +-inf, +-1e300 and mixed-sign points"
     )
     rep.assumptions += ["pickle / CasADi (de)serialisation executed for real, not modelled",
-                        "the parser's sqlite text cache is private to each worker process (its concurrency is C02's subject)", "numeric agreement of code-generated shared libraries is outside the claim",
+                        "the parser's sqlite text cache is private to each worker process (its concurrency is C02's subject)", "numeric agreement of code-generated shared libraries is outside the solver claim (checked at a fixed set of finite and non-finite points only)",
                         "real arithmetic; divisors non-zero"]
     if not cov.get("programs"):
         rep.harness_error("nothing compared")
